@@ -678,31 +678,50 @@ fn state_causes(ex: &Exec, xcopy_done: bool) -> Vec<&'static str> {
         {
             c.push("root-namespace-edited");
         }
-        // duplicate AUTOSAR paths, computed from the tree
-        let mut seen: HashSet<String> = HashSet::new();
-        fn walk(e: &Element, prefix: &str, depth: usize, seen: &mut HashSet<String>, dup: &mut bool) {
-            let mut p = prefix.to_string();
-            if e.is_identifiable() {
-                if let Some(n) = e.item_name() {
-                    p = format!("{}/{}", prefix, n);
-                }
-                if !seen.insert(p.clone()) {
-                    *dup = true;
-                }
-            }
-            if depth < 300 {
-                for s in e.sub_elements() {
-                    walk(&s, &p, depth + 1, seen, dup);
-                }
-            }
-        }
-        let mut dup = false;
-        walk(&root, "", 0, &mut seen, &mut dup);
-        if dup && !c.contains(&"duplicate-path") {
+        if has_duplicate_path(m) && !c.contains(&"duplicate-path") {
             c.push("duplicate-path");
+        }
+        // an element whose stored DATATYPE is not the one its parent's stored type lists for its name in the version in force
+        // (move_element_here / create_copied_sub_element keep the stored type and check only the name)
+        if !c.contains(&"stored-type-mismatch") && m.elements_dfs().any(|(_, e)| stored_type_mismatch(&e, true)) {
+            c.push("stored-type-mismatch");
         }
     }
     c
+}
+
+/// duplicate AUTOSAR paths, computed from the tree
+pub fn has_duplicate_path(m: &AutosarModel) -> bool {
+    let mut seen: HashSet<String> = HashSet::new();
+    fn walk(e: &Element, prefix: &str, depth: usize, seen: &mut HashSet<String>, dup: &mut bool) {
+        let mut p = prefix.to_string();
+        if e.is_identifiable() {
+            if let Some(n) = e.item_name() {
+                p = format!("{}/{}", prefix, n);
+            }
+            if !seen.insert(p.clone()) {
+                *dup = true;
+            }
+        }
+        if depth < 300 {
+            for s in e.sub_elements() {
+                walk(&s, &p, depth + 1, seen, dup);
+            }
+        }
+    }
+    let mut dup = false;
+    walk(&m.root_element(), "", 0, &mut seen, &mut dup);
+    dup
+}
+
+/// the element's stored type differs from what its parent's stored type gives for its name in the element's version
+/// (dt_only: the DATATYPE differs — the only part of a type the loader's decisions below the element depend on)
+pub fn stored_type_mismatch(e: &Element, dt_only: bool) -> bool {
+    let (Ok(Some(p)), Ok(ver)) = (e.parent(), e.min_version()) else { return false };
+    match p.element_type().find_sub_element(e.element_name(), ver as u32) {
+        Some((t, _)) => if dt_only { et_ids(&t).1 != et_ids(&e.element_type()).1 } else { t != e.element_type() },
+        None => true,
+    }
 }
 
 /// string values trimmed, empty strings dropped (what the loader does to String / Pattern values without preserve_whitespace)
@@ -1017,8 +1036,172 @@ pub fn xcopy_main(args: &[String]) {
     println!("STAT xcopy pairs={} copied={} with_problems={}", pairs, copied, bad);
 }
 
+/// the chain below the root of an existing model; un-named steps re-use an existing element, named steps make a new one
+fn build_into(model: &AutosarModel, chain: &str, names: &Names, tag: &str) -> Result<Element, String> {
+    let mut cur = model.root_element();
+    if chain != "-" {
+        for (k, step) in chain.split(',').enumerate() {
+            let mut it = step.split(':');
+            let n: u16 = it.next().unwrap().parse().unwrap();
+            let named = it.next().unwrap() == "1";
+            let name = names.elname(n).ok_or("name")?;
+            let r = if named {
+                cur.create_named_sub_element(name, &format!("{}{}", tag, k))
+            } else {
+                match cur.get_sub_element(name) {
+                    Some(x) => Ok(x),
+                    None => cur.create_sub_element(name),
+                }
+            };
+            cur = match r {
+                Ok(x) => x,
+                Err(e) => cur.get_sub_element(name).ok_or_else(|| format!("chain step {} ({}): {}", k, step, err_name(&e)))?,
+            };
+        }
+    }
+    Ok(cur)
+}
+
+/// xattach <dump> <tier> <shard> <nshards>: inside ONE version, for every name that two parent types list with different child
+/// ElementTypes (c1 below p1, c2 below p2; every ordered pair of child types, one representative pair of parents): build the
+/// child below p1, populate it, and move it (same model: move / from another model: xmove) or copy it (into another model) below p2; then re-load the target file.
+/// quick: the newest, the oldest and the median version; thorough: every version.
+/// Lines: `XATTACH kind= v= name= p1= c1= p2= c2= stored=<type of the attached element> dt=<same|differs> <problems>` for every
+/// combination with a problem; `stored` other than c2 = the element kept its source type.
+pub fn xattach_main(args: &[String]) {
+    let names = Names::load(&args[0]);
+    let tier = args.get(1).map(|s| s.as_str()).unwrap_or("quick").to_string();
+    let shard: usize = args.get(2).map(|x| x.parse().unwrap()).unwrap_or(0);
+    let nshards: usize = args.get(3).map(|x| x.parse().unwrap()).unwrap_or(1);
+    let vbits = version_bits();
+    let versions: Vec<u32> = if tier == "thorough" { vbits.clone() } else { vec![vbits[vbits.len() - 1], vbits[0], vbits[vbits.len() / 2]] };
+    let by_id: HashMap<(u32, u32), ElementType> = reachable().into_iter().map(|t| (et_ids(&t), t)).collect();
+    let (mut combos, mut done, mut skipped, mut bad, mut kept, mut retyped, mut harmless) = (0u64, 0u64, 0u64, 0u64, 0u64, 0u64, 0u64);
+    let mut seen_sig: HashSet<String> = HashSet::new();
+    let mut k = 0usize;
+    for v in &versions {
+        let ver = AutosarVersion::from_val(*v).unwrap();
+        let (order, parent) = bfs_version(*v);
+        // name -> child type -> first parent type that lists the name with this child type in v
+        let mut by_name: BTreeMap<u16, BTreeMap<(u32, u32), (u32, u32)>> = BTreeMap::new();
+        for tid in &order {
+            let t = by_id[tid];
+            if t.content_mode() == ContentMode::Characters {
+                continue;
+            }
+            for (name, _ct, mask, _) in t.sub_element_spec_iter() {
+                if mask & v == 0 {
+                    continue;
+                }
+                if let Some((ct, _)) = t.find_sub_element(name, *v) {
+                    by_name.entry(name as u16).or_default().entry(et_ids(&ct)).or_insert(*tid);
+                }
+            }
+        }
+        for (n16, m) in &by_name {
+            if m.len() < 2 {
+                continue;
+            }
+            let name = names.elname(*n16).unwrap();
+            for (c1, p1) in m {
+                for (c2, p2) in m {
+                    if c1 == c2 || p1 == p2 {
+                        continue;
+                    }
+                    for kind in ["move", "xmove", "copy"] {
+                        k += 1;
+                        if k % nshards != shard {
+                            continue;
+                        }
+                        combos += 1;
+                        let dt = if c1.1 == c2.1 { "same" } else { "differs" };
+                        let r = guard(|| -> Result<(Vec<String>, (u32, u32)), String> {
+                            let (ma, fa, pa) = build(*v, &chain_of(&parent, *p1), &names)?;
+                            if et_ids(&pa.element_type()) != *p1 {
+                                return Err("source parent has another type".into());
+                            }
+                            let src_named = by_id[c1].is_named_in_version(ver);
+                            let src = if src_named { pa.create_named_sub_element(name, "src") } else { pa.create_sub_element(name) }.map_err(|e| format!("create source: {}", err_name(&e)))?;
+                            if et_ids(&src.element_type()) != *c1 {
+                                return Err("source has another type".into());
+                            }
+                            populate(&src, 1);
+                            // the copy goes into another model as well (a copy beside its source repeats the AUTOSAR paths of the subtree)
+                            let (_mb, fb, pb) = if kind != "move" {
+                                build(*v, &chain_of(&parent, *p2), &names)?
+                            } else {
+                                let pb = build_into(&ma, &chain_of(&parent, *p2), &names, "m")?;
+                                (ma.clone(), fa.clone(), pb)
+                            };
+                            if et_ids(&pb.element_type()) != *p2 {
+                                return Err("target parent has another type".into());
+                            }
+                            let at = if kind == "copy" { pb.create_copied_sub_element(&src) } else { pb.move_element_here(&src) }.map_err(|e| format!("{}: {}", kind, err_name(&e)))?;
+                            let stored = et_ids(&at.element_type());
+                            let mut out = vec![];
+                            let text = fb.serialize().map_err(|e| format!("serialize: {}", err_name(&e)))?;
+                            let (w, v2) = reload_check(&text);
+                            if !w.is_empty() && std::env::var("AVH_RANGE_SHOW").is_ok() {
+                                println!("SHOW {:?} {}", w, text);
+                            }
+                            for x in w {
+                                out.push(format!("reload-warning:{}", x.split('@').next().unwrap_or("?")));
+                            }
+                            if let Some(v2) = v2 {
+                                let v1 = file_view(&fb);
+                                if v2 != v1 {
+                                    out.push(if normalise_view(&v1) == normalise_view(&v2) { "reload-content-differs:string-blank-or-empty".to_string() } else { "reload-content-differs".to_string() });
+                                }
+                            }
+                            // the oracle's own reading of `kept its source type`: through the public API, below the new parent
+                            if stored_type_mismatch(&at, false) != (stored != *c2) || stored_type_mismatch(&at, true) != (stored.1 != c2.1) {
+                                out.push("mismatch-reading-differs".to_string());
+                            }
+                            if !out.is_empty() && has_duplicate_path(&_mb) {
+                                out.push("cause:duplicate-path".to_string());
+                            }
+                            Ok((out, stored))
+                        });
+                        let head = format!("kind={} v={} name={} p1=({},{}) c1=({},{}) p2=({},{}) c2=({},{})", kind, v, n16, p1.0, p1.1, c1.0, c1.1, p2.0, p2.1, c2.0, c2.1);
+                        match r {
+                            Ok(Ok((problems, stored))) => {
+                                done += 1;
+                                if stored == *c2 { retyped += 1 } else { kept += 1 }
+                                let mut p2s = problems.clone();
+                                p2s.sort();
+                                p2s.dedup();
+                                if p2s.is_empty() {
+                                    if stored != *c2 { harmless += 1 }
+                                } else {
+                                    bad += 1;
+                                    let sig = p2s.join(";");
+                                    let first = seen_sig.insert(format!("{}|{}", kind, sig));
+                                    println!("XATTACH {} stored=({},{}) dt={} {}{}", head, stored.0, stored.1, dt, sig, if first { " FIRST" } else { "" });
+                                }
+                            }
+                            Ok(Err(m)) => {
+                                skipped += 1;
+                                if std::env::var("AVH_RANGE_SHOW").is_ok() {
+                                    println!("XSKIP {} {}", head, m);
+                                }
+                            }
+                            Err(_) => {
+                                bad += 1;
+                                println!("XATTACH {} stored=(0,0) dt={} PANIC", head, dt);
+                            }
+                        }
+                    }
+                }
+            }
+        }
+    }
+    println!("STAT xattach versions={} combinations={} attached={} not_buildable_or_refused={} kept_source_type={} has_target_type={} with_problems={} kept_type_but_reloads_clean={}",
+        versions.len(), combos, done, skipped, kept, retyped, bad, harmless);
+}
+
 pub fn main(args: &[String]) {
     match args[0].as_str() {
+        "xattach" => xattach_main(&args[1..]),
         "xcopy" => xcopy_main(&args[1..]),
         "plan" => plan_main(&args[1..]),
         "sweep" => sweep_main(&args[1..]),
